@@ -29,6 +29,30 @@ pub(crate) fn verif_point(name: &'static str) {
     }
 }
 
+/// A callback run at named points that concern one sst (see `verif_sst_point`).  Unlike the point
+/// hook it may be entered by several threads at once, so that a harness can hold one thread at a
+/// point while another reaches its own.
+#[allow(clippy::type_complexity)]
+static VERIF_SST_POINT_HOOK: std::sync::Mutex<
+    Option<std::sync::Arc<dyn Fn(&'static str, &str) + Send + Sync>>,
+> = std::sync::Mutex::new(None);
+
+/// Install (or clear) the callback run by `verif_sst_point`.
+pub fn verif_set_sst_point_hook(
+    hook: Option<std::sync::Arc<dyn Fn(&'static str, &str) + Send + Sync>>,
+) {
+    *VERIF_SST_POINT_HOOK.lock().unwrap() = hook;
+}
+
+/// Named point inside a tree operation, with the sst (hex setsum) it is about.  Does nothing
+/// unless a callback was installed; the callback runs without the hook lock.
+pub(crate) fn verif_sst_point(name: &'static str, setsum: &setsum::Setsum) {
+    let hook = VERIF_SST_POINT_HOOK.lock().unwrap().clone();
+    if let Some(hook) = hook {
+        hook(name, &setsum.hexdigest());
+    }
+}
+
 impl VersionRef<'_> {
     /// The ssts (hex setsums) of the version this snapshot holds.
     pub fn verif_setsums(&self) -> Vec<String> {
